@@ -22,9 +22,10 @@ EXTENDS Ledger, Json
 CONSTANTS TraceFile, Strict
 
 VARIABLES pos, obs, trxu,
-          prev    \* the books as they were before the last truncation step (for queries that raced with it)
+          prev,   \* the books as they were before the last truncation step (for queries that raced with it)
+          taint   \* a cancelled truncation has left half-moved vertices behind and the node lives on (until the next Reset)
 
-tvars == <<book, vtx, inflight, pos, obs, trxu, prev>>
+tvars == <<book, vtx, inflight, pos, obs, trxu, prev, taint>>
 
 TLog == ndJsonDeserialize(TraceFile)
 
@@ -51,6 +52,7 @@ TInit ==
     /\ obs = GoodObs
     /\ trxu = {}
     /\ prev = [n \in Node |-> EmptyBook({"g"})]
+    /\ taint = FALSE
 
 ----------------------------------------------------------------------------
 (* reading the log *)
@@ -134,11 +136,29 @@ EvProposeCommit(ev) ==
     LET n == ev.n
         t == TrxOf(ev.t)
         lb == LBook(ev.st, Ids)
-        conf == \E o \in ProposeCommitOutcomes(book[n], n, t, Len(vtx) + 1) :
+        outs == IF "cancel" \in DOMAIN ev THEN ProposeCancelledOutcomes(book[n], n, t, Len(vtx) + 1)
+                ELSE ProposeCommitOutcomes(book[n], n, t, Len(vtx) + 1)
+        full == \E o \in outs :
                     /\ o.res = ev.res
                     /\ Same(o.b, lb)
                     /\ o.res = "ok" => (Len(ev.new) = 1 /\ LVtx(ev.new[1]) = o.new[1])
                     /\ o.res = "ok" => SameWindow(o.b, lb)
+        \* with many tips (the endurance behaviours of C13: hundreds of parked vertices released at once) the outcome
+        \* set ranges over all orders of the tips and cannot be enumerated; the judgement is then made directly:
+        \* only tips left the graph, a sealed vertex stands on tips that are valid and were not dropped, nothing else moved
+        b == book[n]
+        D == b.live \ lb.live
+        few == /\ D \subseteq TipsOf(b)
+               /\ lb.stored = b.stored /\ lb.ck = b.ck /\ lb.parked = b.parked
+               /\ IF ev.res = "ok"
+                  THEN /\ Len(ev.new) = 1
+                       /\ LET nv == LVtx(ev.new[1]) IN
+                            /\ {nv.l, nv.r} \subseteq TipsOf(b) \ D
+                            /\ \A x \in {nv.l, nv.r} : ValidLeaf(b, x)
+                            /\ nv.w = Max2(V(nv.l).w, V(nv.r).w) + 1 /\ nv.trx = t /\ nv.sealer = n
+                            /\ lb.live = (b.live \ D) \cup {Len(vtx) + 1}
+                  ELSE lb.live = b.live \ D
+        conf == IF Cardinality(TipsOf(b)) <= 6 THEN full ELSE few
     IN /\ Adopt(n, ev.st)
        /\ vtx' = IF Len(ev.new) = 1 THEN Append(vtx, LVtx(ev.new[1])) ELSE vtx
        /\ inflight' = [inflight EXCEPT ![n] = @ \ {OpRec("P", t, NoV, 0)}]
@@ -164,8 +184,9 @@ EvDeliverCommit(ev) ==
     LET n == ev.n
         v == ev.v
         lb == LBook(ev.st, Ids)
-        o == DeliverCommitOutcome(book[n], v, ev.rep)
-        conf == o.res = ev.res /\ Same(o.b, lb) /\ (o.res = "ok" => SameWindow(o.b, lb))
+        outs == IF "cancel" \in DOMAIN ev THEN DeliverCancelledOutcomes(book[n], v, ev.rep)
+                ELSE {DeliverCommitOutcome(book[n], v, ev.rep)}
+        conf == \E o \in outs : o.res = ev.res /\ Same(o.b, lb) /\ (o.res = "ok" => SameWindow(o.b, lb))
     IN /\ Adopt(n, ev.st)
        /\ inflight' = [inflight EXCEPT ![n] = @ \ {OpRec("D", T(v), v, ev.rep)}]
        /\ obs' = ObsOf(ev, IsStrict(ev.a) => conf)
@@ -198,14 +219,16 @@ EvTruncate(ev) ==
        /\ obs' = ObsOf(ev, IsStrict(ev.a) => conf)
        /\ UNCHANGED <<vtx, inflight, trxu>>
 
-\* the book is not adopted: the node is shutting down and takes no further operation (its state may hold a vertex
-\* both in the graph and in the store, which no other action can produce)
+\* the book is normally not adopted: the node is shutting down and takes no further operation (its state may hold a
+\* vertex both in the graph and in the store, which no other action can produce).  Some behaviours let the node live
+\* on ("cont") to see what the next truncation does with the half-moved vertices.
 EvTruncateCancelled(ev) ==
     LET n == ev.n
         lb == LBook(ev.st, Ids)
         conf == \E o \in TruncateCancelledOutcomes(book[n]) : o.res = ev.res /\ Same(o.b, lb)
     IN /\ obs' = [GoodObs EXCEPT !.a = ev.a, !.conf = IsStrict(ev.a) => conf]
-       /\ UNCHANGED <<book, vtx, inflight, trxu>>
+       /\ IF "cont" \in DOMAIN ev THEN Adopt(n, ev.st) ELSE UNCHANGED book   \* the driver lets the node live on
+       /\ UNCHANGED <<vtx, inflight, trxu>>
 
 EvTrust(ev) ==
     LET n == ev.n
@@ -291,6 +314,8 @@ TNext ==
     /\ pos <= Len(TLog)
     /\ pos' = pos + 1
     /\ prev' = IF TLog[pos].a = "Truncate" THEN book ELSE prev
+    /\ taint' = IF TLog[pos].a = "Reset" THEN FALSE
+                ELSE IF TLog[pos].a = "TruncateCancelled" /\ "cont" \in DOMAIN TLog[pos] THEN TRUE ELSE taint
     /\ LET ev == TLog[pos] IN
        CASE ev.a = "Reset"         -> EvReset(ev)
          [] ev.a = "Genesis"       -> EvGenesis(ev)
@@ -316,6 +341,10 @@ TSpec == TInit /\ [][TNext]_tvars
 
 ----------------------------------------------------------------------------
 (* verdicts *)
+
+\* C07 on recorded behaviours: cancellation of a truncation is outside the property's quantifier; what a cancelled
+\* truncation and the truncations after it do is judged by conformance (TruncateCancelledOutcomes, TruncateOutcomes)
+C07_T == [][(NotReset /\ ~taint /\ ~taint') => C07_Step]_tvars
 
 \* C14 on recorded behaviours: a load from a stream the driver edited (a vertex removed, repeated or added) is judged
 \* by conformance to LoadOutcomes only - a stream that merely lacks a tip is a valid earlier ledger of the peer, which
